@@ -27,6 +27,8 @@ def with_vars(doc, form):
 def run_cases(c, cases, mode, schema=SCHEMA):
     for i, x in enumerate(cases):
         x["id"] = i + 1
+        # every third case runs with a pass-through extension registered (extension-aware executor paths)
+        x.setdefault("ext", i % 3 == 2)
     vlib.write_ndjson(c.path("cases.ndjson"), cases)
     (binary,) = vlib.build_harness(["cexec"])
     p = vlib.run_harness(binary, [c.path("cases.ndjson"), c.path("trace.ndjson"), schema], timeout=3000)
